@@ -27,7 +27,7 @@ use serde::de::DeserializeOwned;
 use serde_json::{json, Value};
 use std::cell::RefCell;
 
-pub use errs::{DescribeErr, IfaceErr, MonErr, PlanErr};
+pub use errs::{DescribeErr, ErrParam, IfaceErr, MonErr, PlanErr};
 
 /// Chain-custom message used by programs that declare `sv::custom(msg=..)`.
 #[cosmwasm_schema::cw_serde]
@@ -263,7 +263,7 @@ pub fn j<T: serde::Serialize>(v: &T) -> String {
 }
 
 pub mod prelude {
-    pub use crate::errs::{DescribeErr, IfaceErr, MonErr, PlanErr};
+    pub use crate::errs::{DescribeErr, ErrParam, IfaceErr, MonErr, PlanErr};
     pub use crate::{echo_mut, echo_query, j, note_new, MyMsg, MyQuery, Pt, ReplyObs, Shape};
 }
 
@@ -296,4 +296,14 @@ pub mod named {
         )* };
     }
     named_types!(A, B, C, D, E, F, G, H, I, J, K, L, M, N, O, P, Q, R, S, T, U, V, W, X, Y, Z, Msg, Query, Param, Data, Exec, Custom, Item);
+    pub(crate) use named_types;
+}
+
+/// User types whose *name* equals a name of the framework's own vocabulary.  A program imports one of them
+/// under that bare name; wherever its handlers mention the name, the user's type is meant.
+pub mod shadow {
+    use super::named::named_types;
+    named_types!(Empty, StdError, StdResult, Response, Binary, Addr, Coin, Uint128, Reply, SubMsgResult, Deps, DepsMut, Env, MessageInfo,
+                 CosmosMsg, WasmMsg, SubMsg, Event, Storage, QuerierWrapper, Value, Error, Serialize, Deserialize, JsonSchema,
+                 Remote, App, Contract, PhantomData, Timestamp, BlockInfo, Executor, Querier, BoundQuerier, ExecCtx, QueryCtx, Api, Attribute);
 }
